@@ -134,6 +134,12 @@ theorem updRep_minv {s : MacState} (t : Nat) (h : MInv s) : MInv (s.updRep t) :=
 @[simp] theorem updRep_granted (s : MacState) (t : Nat) : (s.updRep t).granted = s.granted := by
   unfold updRep; split <;> rfl
 
+@[simp] theorem updRep_openToks (s : MacState) (t : Nat) : (s.updRep t).openToks = s.openToks := by
+  unfold updRep; split <;> rfl
+
+@[simp] theorem requestSlot_openToks (s : MacState) (t : Nat) : (s.requestSlot t).openToks = s.openToks := by
+  unfold requestSlot; simp only; split <;> simp
+
 theorem occAdd_minv {s : MacState} (t : Nat) (h : MInv s) : MInv (s.occAdd t) :=
   minv_of_eq h rfl rfl rfl rfl rfl rfl rfl rfl rfl rfl rfl
 
